@@ -764,10 +764,10 @@ func (c *Ctx) ruleBalanced() {
 var blockingUnderLockReviewed = map[string]string{
 	"(*pkg/server.BgpServer).handleMGMTOp":   "reply on the per-operation errCh; the requester (mgmtOperation) is already blocked in the receive on it, and takes no lock",
 	"(*pkg/server.BgpServer).deleteNeighbor": "fsm.deconfiguredNotification has capacity 1 and is written once per neighbor deletion",
-	"(*pkg/server.bfdServer).AddPeer":        "select with the server-stopped alternative; the BFD loop does not take sharedData.mu",
-	"(*pkg/server.bfdServer).DeletePeer":     "select with the server-stopped alternative; the BFD loop does not take sharedData.mu",
-	"(*pkg/server.bfdServer).Start":          "select with the server-stopped alternative; the BFD loop does not take sharedData.mu",
-	"(*pkg/server.watcher).Stop":             "drains realCh after the watcher was unregistered; the producer loop does not take sharedData.mu",
+	"(*pkg/server.bfdServer).AddPeer":        "select with the server-stopped alternative; the BFD loop and the goroutines it waits for do not need the management context (verified by E1c.counterpart-independent)",
+	"(*pkg/server.bfdServer).DeletePeer":     "select with the server-stopped alternative; the BFD loop and the goroutines it waits for do not need the management context (verified by E1c.counterpart-independent)",
+	"(*pkg/server.bfdServer).Start":          "select with the server-stopped alternative; the BFD loop and the goroutines it waits for do not need the management context (verified by E1c.counterpart-independent)",
+	"(*pkg/server.watcher).Stop":             "drains realCh after the watcher was unregistered; the producer loop does not need the management context (verified by E1c.counterpart-independent)",
 	"(*pkg/server.watcher).notify":           "write to an unbounded (infinite) channel: never blocks",
 	"pkg/server.sendfsmOutgoingMsg":          "write to the peer's unbounded (infinite) outgoing channel: never blocks",
 }
